@@ -100,6 +100,7 @@ pub fn run(thorough: bool) -> Vec<Part> {
     let contexts: Vec<(&str, Vec<u8>, Vec<u8>)> = vec![
         ("bare", vec![], vec![]),
         ("after request line", b"GET / HTTP/1.1\r\n".to_vec(), vec![]),
+        ("directly behind the request line text", b"GET / HTTP/1.1".to_vec(), vec![]),
         ("after Content-Length: 1", b"GET / HTTP/1.1\r\nContent-Length: 1".to_vec(), vec![]),
         ("inside absolute URI", b"GET http://".to_vec(), b" HTTP/1.1\r\n\r\n".to_vec()),
     ];
@@ -270,7 +271,7 @@ pub fn run(thorough: bool) -> Vec<Part> {
     }
     // write side: at most one write per try_write, whatever the stream answers (incl. EINTR)
     {
-        let cfg = crate::connw::WCfg { label: "write path: one write per try_write under every stream answer".into(), bodies: vec![5], max_enqueues: 2, all_lengths: false };
+        let cfg = crate::connw::WCfg { label: "write path: one write per try_write under every stream answer".into(), bodies: vec![5], max_enqueues: 2, all_lengths: false, bodyless_variants: false };
         let st = bfs(&cfg, &Limits::default(), workers());
         part.add("write_path_states", st.states);
         part.add("write_path_transitions", st.transitions);
@@ -282,7 +283,7 @@ pub fn run(thorough: bool) -> Vec<Part> {
             part.machinery_errors.push(e.clone());
         }
     }
-    part.set("rule", json!("all strings up to the length bound over the 11-symbol adversarial alphabet x 4 contexts x 10 entry points; distinct by construction; non-trivial = the string contains CR, LF or ':'"));
+    part.set("rule", json!("all strings up to the length bound over the 11-symbol adversarial alphabet x 5 contexts x 10 entry points; distinct by construction; non-trivial = the string contains CR, LF or ':'"));
     part.set("exhaustive", json!(true));
     vec![part]
 }
